@@ -108,6 +108,8 @@ def run(tier, replay=None):
         n += run_generator(v, variant, mp, ["gen", str(vlib.seed()), str(11 * scale)],
                            os.path.join(out, "mp_%s.ndjson" % variant), "memory pool histories")
         kr = vlib.cc_harness(PID, variant, "kernel_replay")
+        n += run_generator(v, variant, kr, ["run", os.path.join(vlib.ROOT, "scenarios", "kernel_regressions.txt")],
+                           os.path.join(out, "k_scen_%s.ndjson" % variant), "kernel regression scenarios", start='{"e":"Prog"')
         for pf in (["mix", "contend", "end", "wait"] if tier == "quick" else ["mix", "contend", "end", "wait", "res", "pool", "buf", "queue", "cond", "rec"]):
             rc, o = vlib.run(["python3", os.path.join(vlib.ROOT, "tools", "kgen.py"), str(vlib.seed()), str(150 * scale), pf], timeout=600)
             pp = os.path.join(out, "kprog_%s.txt" % pf)
